@@ -124,9 +124,9 @@ def cal_err(fun, *args, grad=None, dx=1e-5, kwargs=None):
     if grad is None:
         grad_v = []
         for i, k in enumerate(value):
-            value[i] += dx
+            value[i] = k + dx
             val_p = fun(*value, **kwargs)
-            value[i] -= 2 * dx
+            value[i] = k - dx
             val_m = fun(*value, **kwargs)
             value[i] = k
             grad_v.append((val_p - val_m) / 2 / dx)
